@@ -249,7 +249,8 @@ impl pipe::Source for RequestStream {
                 log_id!(trace, self.id, "H2 stream read {} bytes", chunk.len());
                 Ok(pipe::Data::Chunk(chunk))
             }
-            Some(Err(e)) if e.reason().is_none_or(|r| r == Reason::NO_ERROR) => {
+            // an error without a reason is an I/O or a library one: the client did not end the stream
+            Some(Err(e)) if e.reason() == Some(Reason::NO_ERROR) => {
                 log_id!(trace, self.id, "H2 stream read EOF (NO_ERROR)");
                 Ok(pipe::Data::Eof)
             }
